@@ -15,7 +15,6 @@ import (
 	"database/sql"
 	"errors"
 	"fmt"
-	"os"
 	"strings"
 
 	"verif/h/kit"
@@ -181,7 +180,7 @@ func run(c *mc.Ctx, u mc.Unit) {
 	}
 	p := u.Params.(params)
 	dir := sk.ScratchDir()
-	defer os.RemoveAll(dir)
+	defer kit.RemoveScratch(dir)
 	a := sk.Open(p.Store, dir)
 	defer func() { a.Close() }()
 	a.InstallFaultTriggers()
